@@ -331,3 +331,221 @@ Definition bridge_sweep (nmax : nat) : bool :=
 
 Lemma bridge_bounded : bridge_sweep 6 = true.
 Proof. vm_compute. reflexivity. Qed.
+
+(* ====================== the accept set of fd_fdp is the C01 accept set (general) ====================== *)
+From Coq Require Import Permutation.
+From Mokaverif Require Import Proofs.TdcP.
+Open Scope nat_scope.
+
+Definition cnt_true (l : list bool) : nat := length (filter (fun b => b) l).
+Definition cnt_false (l : list bool) : nat := length (filter negb l).
+
+(* the TDC rule evaluated on the labels from position k on (worst first: these are the k-th best prefix) *)
+Definition stopF (alpha : Q) (fl : list bool) (k : nat) : bool :=
+  fd_stop alpha 0 (cnt_true (skipn k fl)) (cnt_false (skipn k fl)).
+
+Lemma stop_c_v alpha c v d : fd_stop alpha c v d = fd_stop alpha 0 (c + v) d.
+Proof. unfold fd_stop. reflexivity. Qed.
+
+Lemma stopF_succ alpha b fl k : stopF alpha (b :: fl) (S k) = stopF alpha fl k.
+Proof. reflexivity. Qed.
+
+(* counting through the combined (score, flag) list of the C01 specification *)
+Lemma cnt_suffix_nat (g : bool -> bool) (fl : list bool) : forall s k,
+  length (filter (fun p : nat * bool => g (snd p) && (s + k <=? fst p)) (combine (seq s (length fl)) fl))
+  = length (filter g (skipn k fl)).
+Proof.
+  induction fl as [|b fl IH]; intros s k; [destruct k; reflexivity|].
+  cbn [length seq combine filter fst snd]. destruct k as [|k].
+  - rewrite Nat.add_0_r, Nat.leb_refl, andb_true_r. cbn [skipn filter].
+    assert (filter (fun p : nat * bool => g (snd p) && (s <=? fst p)) (combine (seq (S s) (length fl)) fl)
+            = filter (fun p : nat * bool => g (snd p) && (S s + 0 <=? fst p)) (combine (seq (S s) (length fl)) fl)) as Hf.
+    { apply filter_ext_in. intros [pa pb] Hp. apply in_combine_l in Hp. apply in_seq in Hp. cbn [fst snd]. f_equal.
+      destruct (Nat.leb_spec s pa), (Nat.leb_spec (S s + 0) pa); try reflexivity; lia. }
+    rewrite Hf. specialize (IH (S s) 0). cbn [skipn] in IH.
+    destruct (g b); cbn [length]; rewrite IH; reflexivity.
+  - replace (s + S k <=? s) with false by (symmetry; apply Nat.leb_gt; lia). rewrite andb_false_r.
+    cbn [skipn]. specialize (IH (S s) k). replace (S s + k) with (s + S k) in IH by lia. exact IH.
+Qed.
+
+Lemma count_ge_suffix (fl : list bool) (g : bool -> bool) k :
+  count (fun p : Z * bool => g (snd p) && (tdc_key true (fst p) <=? tdc_key true (Z.of_nat k))%Z)
+        (combine (map Z.of_nat (seq 0 (length fl))) fl)
+  = Z.of_nat (length (filter g (skipn k fl))).
+Proof.
+  rewrite combine_map_l, count_map. unfold count. f_equal.
+  rewrite <- (cnt_suffix_nat g fl 0 k). f_equal. apply filter_ext. intros [a b]. cbn [fst snd]. f_equal.
+  unfold tdc_key. simpl Nat.add.
+  destruct (Z.leb_spec (- Z.of_nat a) (- Z.of_nat k)), (Nat.leb_spec k a); try reflexivity; lia.
+Qed.
+
+Lemma fdr_at_suffix (fl : list bool) k :
+  fdr_at true (combine (map Z.of_nat (seq 0 (length fl))) fl) (Z.of_nat k)
+  = tdc_fdr (Z.of_nat (cnt_true (skipn k fl))) (Z.of_nat (cnt_false (skipn k fl))).
+Proof.
+  unfold fdr_at, n_targets, n_decoys.
+  pose proof (count_ge_suffix fl (fun b => b) k) as H1. pose proof (count_ge_suffix fl negb k) as H2.
+  unfold cnt_true, cnt_false. rewrite <- H1, <- H2. reflexivity.
+Qed.
+
+Lemma Qle_bool_compat x y a : (x == y)%Q -> Qle_bool x a = Qle_bool y a.
+Proof.
+  intros E. destruct (Qle_bool x a) eqn:E1, (Qle_bool y a) eqn:E2; try reflexivity.
+  - apply Qle_bool_iff in E1. rewrite E in E1. apply Qle_bool_iff in E1. congruence.
+  - apply Qle_bool_iff in E2. rewrite <- E in E2. apply Qle_bool_iff in E2. congruence.
+Qed.
+
+Lemma tdc_fdr_le alpha T D : (alpha < 1)%Q ->
+  (Qle_bool (tdc_fdr (Z.of_nat T) (Z.of_nat D)) alpha = fd_stop alpha 0 T D).
+Proof.
+  intros Ha. unfold tdc_fdr, fd_stop. simpl Nat.add. destruct T as [|T].
+  - simpl. destruct (Qle_bool 1 alpha) eqn:E; [|reflexivity]. apply Qle_bool_iff in E. lra.
+  - replace (Z.of_nat (S T) =? 0)%Z with false by (symmetry; apply Z.eqb_neq; lia).
+    replace (0 <? S T) with true by (symmetry; apply Nat.ltb_lt; lia). simpl andb.
+    assert ((Z.of_nat D + 1 # Z.to_pos (Z.of_nat (S T))) == inject_Z (Z.of_nat (D + 1)) / inject_Z (Z.of_nat (S T)))%Q as E.
+    { rewrite Qmake_Qdiv, Z2Pos.id by lia. rewrite Nat2Z.inj_add. reflexivity. }
+    apply Qle_bool_compat. exact E.
+Qed.
+
+(* Lemma A: a q-value is within alpha iff some prefix containing the PSM passes the TDC rule *)
+Lemma accept_char alpha (fl : list bool) i : (alpha < 1)%Q -> i < length fl ->
+  Qle_bool (nth i (tdc_core true (map Z.of_nat (seq 0 (length fl))) fl) 1%Q) alpha
+  = existsb (stopF alpha fl) (seq 0 (S i)).
+Proof.
+  intros Ha Hi.
+  destruct (tdc_core_spec true (map Z.of_nat (seq 0 (length fl))) fl) as [Hlen Hq]; [rewrite map_length, seq_length; reflexivity|].
+  rewrite map_length, seq_length in Hlen, Hq. specialize (Hq i Hi).
+  rewrite (nth_indep _ 0%Z (Z.of_nat 0)) in Hq by (rewrite map_length, seq_length; exact Hi).
+  rewrite map_nth, seq_nth in Hq by exact Hi. simpl Nat.add in Hq.
+  set (q := nth i (tdc_core true (map Z.of_nat (seq 0 (length fl))) fl) 1%Q) in *.
+  destruct Hq as (H1 & Hl & Hatt).
+  assert (forall s', In s' (map fst (combine (map Z.of_nat (seq 0 (length fl))) fl)) <-> exists k, k < length fl /\ s' = Z.of_nat k) as Hin.
+  { intros s'. rewrite map_fst_combine by (rewrite map_length, seq_length; reflexivity). rewrite in_map_iff. split.
+    - intros (k & <- & Hk). apply in_seq in Hk. exists k. split; [lia|reflexivity].
+    - intros (k & Hk & ->). exists k. split; [reflexivity|apply in_seq; lia]. }
+  destruct (existsb (stopF alpha fl) (seq 0 (S i))) eqn:Ee.
+  - apply existsb_exists in Ee. destruct Ee as (k & Hk & Hs). apply in_seq in Hk.
+    apply Qle_bool_iff. eapply Qle_trans; [apply (Hl (Z.of_nat k))|].
+    + apply Hin. exists k. split; [lia|reflexivity].
+    + unfold better_eq, tdc_key. lia.
+    + rewrite fdr_at_suffix. apply Qle_bool_iff. rewrite (tdc_fdr_le alpha _ _ Ha). exact Hs.
+  - destruct (Qle_bool q alpha) eqn:Eq; [|reflexivity]. exfalso. apply Qle_bool_iff in Eq.
+    destruct Hatt as [E|(s' & Hs' & Hb & E)]; [rewrite E in Eq; lra|].
+    apply Hin in Hs'. destruct Hs' as (k & Hk & ->). unfold better_eq, tdc_key in Hb.
+    assert (existsb (stopF alpha fl) (seq 0 (S i)) = true) as Hc; [|congruence].
+    apply existsb_exists. exists k. split; [apply in_seq; lia|].
+    unfold stopF. rewrite <- (tdc_fdr_le alpha _ _ Ha). apply Qle_bool_iff. rewrite <- fdr_at_suffix, <- E. exact Eq.
+Qed.
+
+Definition nulls (ri : list fd_kind) : list bool :=
+  map (fun k => match k with FdNull => true | FdCorrect => false end) ri.
+
+Definition accB (alpha : Q) (fl : list bool) (i : nat) : bool :=
+  nth i fl false && existsb (stopF alpha fl) (seq 0 (S i)).
+
+Definition FDPB (alpha : Q) (fl nl : list bool) : Q :=
+  let acc := map (accB alpha fl) (seq 0 (length fl)) in
+  let r := length (filter (fun b => b) acc) in
+  let v := length (filter (fun p : bool * bool => fst p && snd p) (combine acc nl)) in
+  match r with O => 0%Q | _ => (inject_Z (Z.of_nat v) / inject_Z (Z.of_nat r))%Q end.
+
+Lemma realize_length ri : forall w, length (fd_realize ri w) = length ri.
+Proof. induction ri as [|[] r IH]; intros w; simpl; [reflexivity| |]; rewrite IH; reflexivity. Qed.
+
+Lemma count_n_cons_null r : fd_count_n (FdNull :: r) = S (fd_count_n r).
+Proof. reflexivity. Qed.
+
+Lemma realize_counts ri : forall w, length w = fd_count_n ri ->
+  cnt_true (fd_realize ri w) = fd_count_c ri + fd_count_t w /\
+  cnt_false (fd_realize ri w) = length w - fd_count_t w /\
+  length (filter (fun p : bool * bool => fst p && snd p) (combine (fd_realize ri w) (nulls ri))) = fd_count_t w.
+Proof.
+  unfold cnt_true, cnt_false, nulls, fd_count_t.
+  induction ri as [|[] r IH]; intros w Hw.
+  - destruct w; [|discriminate]. repeat split.
+  - destruct (IH w Hw) as (H1 & H2 & H3). simpl. unfold fd_count_c in *. simpl. rewrite H1, H2, H3. repeat split; lia.
+  - destruct w as [|b w]; [discriminate|]. rewrite count_n_cons_null in Hw. injection Hw as Hw.
+    destruct (IH w Hw) as (H1 & H2 & H3).
+    pose proof (count_t_le w) as Hle. unfold fd_count_t in Hle.
+    unfold fd_count_c in *. simpl. destruct b; simpl; rewrite ?H1, ?H2, ?H3; repeat split; try lia.
+    destruct (length (filter (fun b0 : bool => b0) w)); lia.
+Qed.
+
+Lemma via_is_FDPB alpha ri w : (alpha < 1)%Q ->
+  fdp_via_tdc alpha ri w = FDPB alpha (fd_realize ri w) (nulls ri).
+Proof.
+  intros Ha. unfold fdp_via_tdc, FDPB. set (fl := fd_realize ri w).
+  assert (length fl = length ri) as Hn by apply realize_length.
+  rewrite <- Hn.
+  assert (map (fun qt : Q * bool => snd qt && Qle_bool (fst qt) alpha)
+              (combine (tdc_core true (map Z.of_nat (seq 0 (length fl))) fl) fl)
+          = map (accB alpha fl) (seq 0 (length fl))) as ->; [|reflexivity].
+  destruct (tdc_core_spec true (map Z.of_nat (seq 0 (length fl))) fl) as [Hlen _]; [rewrite map_length, seq_length; reflexivity|].
+  rewrite map_length, seq_length in Hlen.
+  apply (nth_ext _ _ false false).
+  - rewrite !map_length, combine_length, seq_length, Hlen, Nat.min_id. reflexivity.
+  - intros i Hi. rewrite map_length, combine_length, Hlen, Nat.min_id in Hi.
+    rewrite (nth_indep _ false ((fun qt : Q * bool => snd qt && Qle_bool (fst qt) alpha) (1%Q, false)))
+      by (rewrite map_length, combine_length, Hlen, Nat.min_id; exact Hi).
+    rewrite (map_nth (fun qt : Q * bool => snd qt && Qle_bool (fst qt) alpha)).
+    rewrite combine_nth by exact Hlen. cbn [fst snd].
+    rewrite (nth_indep (map (accB alpha fl) (seq 0 (length fl))) false (accB alpha fl 0)) by (rewrite map_length, seq_length; exact Hi).
+    rewrite (map_nth (accB alpha fl)), seq_nth by exact Hi. simpl Nat.add. unfold accB. f_equal.
+    apply accept_char; assumption.
+Qed.
+
+Lemma existsb_shift (f : nat -> bool) n : existsb f (seq 0 (S n)) = f 0 || existsb (fun k => f (S k)) (seq 0 n).
+Proof.
+  cbn [seq existsb]. f_equal. rewrite <- seq_shift. induction (seq 0 n) as [|x l IH]; [reflexivity|]. simpl. rewrite IH. reflexivity.
+Qed.
+
+Theorem FDPB_is_fdp alpha ri : forall w, length w = fd_count_n ri ->
+  (FDPB alpha (fd_realize ri w) (nulls ri) == fd_fdp alpha ri w)%Q.
+Proof.
+  induction ri as [|x r IH]; intros w Hw.
+  - destruct w; [|discriminate]. unfold FDPB, fd_fdp. rewrite scan_step. reflexivity.
+  - unfold fd_fdp. rewrite scan_step.
+    destruct (realize_counts (x :: r) w Hw) as (HT & HD & HV).
+    set (fl := fd_realize (x :: r) w) in *.
+    assert (stopF alpha fl 0 = fd_stop alpha (fd_count_c (x :: r)) (fd_count_t w) (length w - fd_count_t w)) as Hs.
+    { unfold stopF. cbn [skipn]. rewrite HT, HD. symmetry. apply stop_c_v. }
+    rewrite <- Hs. destruct (stopF alpha fl 0) eqn:Es.
+    + (* the whole list is accepted *)
+      assert (map (accB alpha fl) (seq 0 (length fl)) = fl) as Hacc.
+      { apply (nth_ext _ _ false false); [rewrite map_length, seq_length; reflexivity|].
+        intros i Hi. rewrite map_length, seq_length in Hi.
+        rewrite (nth_indep _ false (accB alpha fl 0)) by (rewrite map_length, seq_length; exact Hi).
+        rewrite map_nth, seq_nth by exact Hi. simpl Nat.add. unfold accB. rewrite existsb_shift, Es. simpl. apply andb_true_r. }
+      unfold FDPB. fold fl. rewrite Hacc. fold (cnt_true fl). rewrite HT, HV.
+      symmetry in Hs. apply stop_spec in Hs. destruct Hs as [Hpos _].
+      unfold fd_fdp_pay. destruct (fd_count_c (x :: r) + fd_count_t w) eqn:E; [lia|reflexivity].
+    + (* the worst position is not accepted; the rest behaves as the shorter list *)
+      set (w' := match x with FdCorrect => w | FdNull => tl w end).
+      set (b := match x with FdCorrect => true | FdNull => hd false w end).
+      assert (fl = b :: fd_realize r w') as Efl by (unfold fl, b, w'; destruct x; reflexivity).
+      assert (length w' = fd_count_n r) as Hw'.
+      { unfold w'. destruct x; [exact Hw|]. destruct w; [discriminate|]. rewrite count_n_cons_null in Hw. simpl in Hw |- *. lia. }
+      assert (FDPB alpha fl (nulls (x :: r)) = FDPB alpha (fd_realize r w') (nulls r)) as ->.
+      { assert (stopF alpha (b :: fd_realize r w') 0 = false) as Es' by (rewrite <- Efl; exact Es).
+        unfold FDPB. rewrite Efl. cbn [length seq map].
+        assert (accB alpha (b :: fd_realize r w') 0 = false) as E0.
+        { unfold accB. cbn [seq existsb]. rewrite Es'. simpl. apply andb_false_r. }
+        rewrite E0. rewrite <- seq_shift, map_map.
+        assert (forall i, accB alpha (b :: fd_realize r w') (S i) = accB alpha (fd_realize r w') i) as ES.
+        { intros i. unfold accB. cbn [nth]. f_equal. rewrite existsb_shift, Es'. reflexivity. }
+        rewrite (map_ext _ _ ES). cbn [filter nulls map combine fst snd andb]. reflexivity. }
+      rewrite (IH w' Hw'). unfold fd_fdp, w'. destruct x; reflexivity.
+Qed.
+
+(* the accept set of the theorem IS the set of targets whose C01 q-value is within alpha *)
+Theorem via_tdc_is_fdp alpha ri w : (alpha < 1)%Q -> length w = fd_count_n ri ->
+  (fdp_via_tdc alpha ri w == fd_fdp alpha ri w)%Q.
+Proof. intros Ha Hw. rewrite (via_is_FDPB alpha ri w Ha). apply FDPB_is_fdp. exact Hw. Qed.
+
+(* E[FDP] <= alpha for the false discovery proportion defined through the C01 q-values *)
+Theorem fdr_control_tdc alpha ri : (0 <= alpha)%Q -> (alpha < 1)%Q ->
+  (fd_qsum (map (fdp_via_tdc alpha ri) (fd_labs (fd_count_n ri))) <= alpha * inject_Z (Z.of_nat (2 ^ fd_count_n ri)))%Q.
+Proof.
+  intros H0 H1. rewrite (qsum_map_ext _ (fd_fdp alpha ri)); [apply fdr_control; exact H0|].
+  intros w Hw. apply via_tdc_is_fdp; [exact H1|apply labs_length; exact Hw].
+Qed.
